@@ -459,6 +459,9 @@ def np_where(ex, st, cond, *rest, **kw):
 
 
 def np_concatenate(ex, st, parts, axis=0, **kw):
+    if all(isinstance(p, SeqVal) for p in parts) and axis == 0:
+        # arrays modelled as sequences of rows
+        return SeqVal(z3.Concat(*[p.s for p in parts]) if len(parts) > 1 else parts[0].s, parts[0].elem)
     arrs = [as_array(st, p) for p in parts]
     nd = arrs[0].ndim
     if any(a.ndim != nd for a in arrs):
